@@ -69,18 +69,25 @@ impl PidFileLocking {
         output_str.contains(&format!("{}", pid))
     }
 
-    /// Removes the lock file if it is not locked or the process that locked it is no longer active
+    /// Removes the lock file if it is owned by the current process. Fails if it is owned by another
+    /// active process. A lock file whose owner is no longer active is removed as well (by
+    /// `get_locker_pid`).
     pub fn release(&self) -> io::Result<()> {
-        if self.is_locked() {
-            Err(io::Error::other(format!(
+        match self.get_locker_pid() {
+            Some(pid) if pid != std::process::id() as usize => Err(io::Error::other(format!(
                 "Cannot remove a dirty lock file, it is locked by another process (PID: {:#?})",
-                self.get_locker_pid()
-            )))
-        } else {
-            #[cfg(fuellabs_sway_verif)]
-            verif::step("release:remove", &self.0);
-            self.remove_file()?;
-            Ok(())
+                Some(pid)
+            ))),
+            Some(_) => {
+                #[cfg(fuellabs_sway_verif)]
+                verif::step("release:remove", &self.0);
+                self.remove_file()?;
+                Ok(())
+            }
+            // There is no lock file, or none with a live owner: nothing of ours to remove.
+            // Removing whatever is at the path now could delete a lock that another process
+            // has created since we looked.
+            None => Ok(()),
         }
     }
 
